@@ -73,6 +73,11 @@ EXEMPT: List[Tuple[str, str, str]] = [
      "queries/pointers/patches applied to JSON values (the CLI reports this class separately)"),
     ("json.JSONDecodeError", "patch.JSONPatch._load",
      "a patch supplied as JSON text is decoded by json.loads before it is a list of operations"),
+    ("UnicodeDecodeError", "_data.load_data",
+     "a document supplied as a *binary file* that is not UTF-8: decoding the caller's bytes, like decoding the caller's "
+     "JSON text, comes before there is a JSON value (the CLI reports this class separately)"),
+    ("UnicodeDecodeError", "patch.JSONPatch._load",
+     "a patch supplied as a binary file that is not UTF-8 (as above)"),
     ("TypeError", "pointer.JSONPointer.__truediv__",
      "explicit operand-type contract of the `/` operator for a non-str right operand; the claim "
      "covers text given as a pointer"),
@@ -314,4 +319,45 @@ def r6_5(ctx: Ctx) -> RuleResult:
     return rr
 
 
-RULES = [r6_1, r6_3, r6_4, r6_5]
+def r6_6(ctx: Ctx) -> RuleResult:
+    """A document is decoded once, by the entry point it is given to.  Code that runs *during* evaluation or
+    application works on JSON values: a value that is a string is a JSON string, not JSON text.  So the decoder
+    (`load_data`) must not be reachable from the evaluation of selectors and filter expressions nor from the
+    application of a patch operation - there it turns the string `[1` into a JSONDecodeError and the string `1`
+    into the number 1."""
+    rr = RuleResult("R6.6", "values met during evaluation are not decoded as JSON text again", floor=3)
+    cg = ctx.callgraph
+    loaders = [f for q, f in ctx.repo.functions.items() if q.endswith("._data.load_data") or q == "jsonpath._data.load_data"]
+    if not loaders:
+        raise AnalysisError("R6.6: jsonpath._data.load_data not found")
+    families = (
+        ("jsonpath.filter.FilterExpression", ("evaluate", "evaluate_async"), "the evaluation of a filter expression"),
+        ("jsonpath.selectors.JSONPathSelector", ("resolve", "resolve_async"), "the evaluation of a selector"),
+        ("jsonpath.patch.Op", ("apply",), "the application of a patch operation"),
+    )
+    for base_name, methods, what in families:
+        base = ctx.repo.require_class(base_name)
+        roots = []
+        for cls in ctx.repo.subclasses(base, strict=False):
+            for m in methods:
+                f = cls.methods.get(m)
+                if f is not None:
+                    roots.append(f)
+        if not roots:
+            raise AnalysisError(f"R6.6: no {methods} methods below {base_name}")
+        paths = cg.reachable(roots)
+        hits = [paths[f.qualname] for f in loaders if f.qualname in paths]
+        if not hits:
+            rr.ok(base.module.relpath, f"{what}: load_data is not reachable from {len(roots)} methods")
+            continue
+        path = min(hits, key=lambda pth: (len(pth), pth))
+        root = ctx.repo.functions[path[0]]
+        short_path = " -> ".join(q.split(".", 1)[1] if q.startswith("jsonpath.") else q for q in path)
+        f = rr.bad(None, None, f"{what} reaches the document decoder ({short_path}): a JSON value that is a string is decoded as "
+                   "JSON text a second time, so a string like `[1` raises JSONDecodeError and a string like `1` is taken for a number",
+                   construct=f"{base.name}.{'/'.join(methods)}: load_data reachable", file=root.module.relpath, qualname=base.qualname)
+        f.line = root.node.lineno
+    return rr
+
+
+RULES = [r6_1, r6_3, r6_4, r6_5, r6_6]
